@@ -15,7 +15,10 @@ META = {
             "allocate with a non-empty free list reuses its top and mints nothing, the cells marked ACTIVE at quiescence "
             "are exactly the held values, thread ids of simultaneously live threads differ; for the box no emplace round "
             "has two winners, a take of an issued id fails only if another take already won, a won id never matches its "
-            "slot again.  Proof of the real-width statements: the wrapped execution is step for step the image of the "
+            "slot again; RAII layer (DepositBox::Accessor: take into holders, move assignment, move construction, "
+            "destruction - special members interpreted from the regenerated std::swap / std::exchange calls): #successful "
+            "takes = #finish_released calls + #ids held, i.e. every won id is finished exactly once.  Proof of the "
+            "real-width statements: the wrapped execution is step for step the image of the "
             "unbounded (ghost) execution.  The boundary is the refuted witness (exactly 65536 pushes in one window), "
             "replayed on the real IdAllocator<uint16_t> on every run.  Release/acquire half on the view machine of "
             "coq/WM/RA.v with the orders of the regenerated site tables: link publication (release push CAS / acquire "
@@ -342,7 +345,8 @@ def main(argv):
     chk.cov["wrap_witness_reproduced_runs"] = nwrapdup
     chk.cov["rule"] = ("case = (client program, schedule); programs: directed ABA / racing-take programs plus seeded random mixes "
                        "of allocate/deallocate (IdAllocator<uint16_t> and <uint32_t>) and emplace/take_released/finish_released "
-                       "(DepositBox) over 2-3 threads after a sequential setup that pre-fills the free list / the box; schedules: "
+                       "plus Accessor operations (take into a holder, move-assign between holders incl. self-assignment, "
+                       "move-construct, destroy) (DepositBox) over 2-3 threads after a sequential setup that pre-fills the free list / the box; schedules: "
                        "uniform random, PCT depth 3, round-robin with random pre-emption, and for small programs an exhaustive "
                        "sweep of all one- and two-pre-emption schedules (replay strategy); thread-id scripts spawn/exit real "
                        "threads in waves; WRAP cases stage the 65536-push window; distinct non-trivial = distinct (program, "
